@@ -15,7 +15,7 @@ ifeq ($(V),tsan)
 SAN :=
 LSAN := -fsanitize=thread
 endif
-INC := -I$(REPO) -I$(REPO)/booster -I$(B) -I$(B)/booster -I$(REPO)/private -I$(REPO)/src
+INC := -I$(REPO) -I$(REPO)/booster -I$(B) -I$(B)/booster -I$(REPO)/private -I$(REPO)/src -I$(REPO)/tests
 CXXF := -std=c++17 -O1 -g -w -DARTYOM_BEILIS_CPPCMS_VERIF $(SAN) -MMD -MP
 WRAP := $(shell tr -s ' \n' '\n' < $(H)/sim/wrap.list | sed '/^$$/d' | sed 's/^/-Wl,--wrap=/' | tr '\n' ' ')
 LIBS := $(B)/libcppcms.a $(B)/booster/libbooster.a -lpcre -lz -lcrypto -ldl -licuuc -licui18n -licudata -lpthread
